@@ -101,6 +101,8 @@ def own_nodes(func_node):
     while stack:
         n = stack.pop()
         yield n
+        if isinstance(n, (ast.FunctionDef, ast.AsyncFunctionDef, ast.Lambda, ast.ClassDef)):
+            continue
         for c in reversed(list(ast.iter_child_nodes(n))):
             if isinstance(c, (ast.FunctionDef, ast.AsyncFunctionDef, ast.Lambda, ast.ClassDef)):
                 # the def statement itself is visible (name binding, decorators, defaults) but not its body
